@@ -16,7 +16,18 @@ use std::time::{Duration, Instant};
 const KNOWN_WORDS: &[&str] = &["isready", "ucinewgame", "position", "go", "setoption", "quit", "uci"];
 
 pub fn garbage_line(rng: &mut Rng) -> String {
-    let line = match rng.below(13) {
+    let line = match rng.below(14) {
+        13 => {
+            // a long unknown line made of command words: whatever piece of it a reader might
+            // mistake for a line of its own (a bounded or chunked read) would be a real command
+            let want = if rng.chance(1, 3) { 60_000 + rng.below(200_000) as usize } else { 3_000 + rng.below(30_000) as usize };
+            let mut t = String::from("zz");
+            while t.len() < want {
+                t.push(' ');
+                t.push_str(*rng.pick(&["isready", "quit", "position startpos moves e2e4", "go", "ucinewgame", "uci", "isready", "quit", "position fen 8/8/8/8/8/8/8/K6k w - - 0 1", "setoption name DebugLogLevel value Info", "x"]));
+            }
+            t
+        }
         11 => {
             // NUL bytes and lone carriage returns inside an otherwise harmless line
             let mut hex = String::from("RAWHEX:");
@@ -325,7 +336,7 @@ fn check_eof(bin: &PathBuf, rng: &mut Rng, roots: &[History], acc: &mut Acc, sid
 
 pub fn run(tier: Tier, seed: u64) -> i32 {
     let mut run = Run::new("C17", tier, seed, "exploration");
-    run.rule = "evaluation = one observation on a session of the real binary: (a) an isready probe after unknown lines, (b) the bestmove sequence of a script of well-formed commands (position + zero-slice go chains with unknown go tokens, ucinewgame, isready) with unknown/garbage lines inserted at random points compared with the same script without them, and with surplus blanks/tabs/trailing CR in the well-formed commands, (c) no 'panicked' on stderr and no exit, (d) quit ends the process within 2 s (solo-confirmed), (b') the same script with its unknown lines written without waiting for any reply (one write / per line / pieces that cut lines in two) and ended by quit or end of input: same answers in the same order, the process gone within 2 s of the last answer and not spinning, (e) closing stdin before uci / after the handshake / mid-session / right after a timed go / in the middle of a line (no final newline) ends the process within slice + 2 s and it does not burn CPU meanwhile (process CPU time vs wall time over 300 ms). Unknown lines: empty, blanks/tabs, unknown words, random printable ASCII, Unicode, BOM, comment-like, 3000-character lines, lines of up to a megabyte, NUL bytes and lone carriage returns, bytes that are not valid UTF-8; never starting with a command word. Non-trivial = every script / EOF session; distinct by seed index".into();
+    run.rule = "evaluation = one observation on a session of the real binary: (a) an isready probe after unknown lines, (b) the bestmove sequence of a script of well-formed commands (position + zero-slice go chains with unknown go tokens, ucinewgame, isready) with unknown/garbage lines inserted at random points compared with the same script without them, and with surplus blanks/tabs/trailing CR in the well-formed commands, (c) no 'panicked' on stderr and no exit, (d) quit ends the process within 2 s (solo-confirmed), (b') the same script with its unknown lines written without waiting for any reply (one write / per line / pieces that cut lines in two) and ended by quit or end of input: same answers in the same order, the process gone within 2 s of the last answer and not spinning, (e) closing stdin before uci / after the handshake / mid-session / right after a timed go / in the middle of a line (no final newline) ends the process within slice + 2 s and it does not burn CPU meanwhile (process CPU time vs wall time over 300 ms). Unknown lines: empty, blanks/tabs, unknown words, random printable ASCII, Unicode, BOM, comment-like, 3000-character lines, lines of up to a megabyte, long lines made of command words, NUL bytes and lone carriage returns, bytes that are not valid UTF-8; never starting with a command word. Non-trivial = every script / EOF session; distinct by seed index".into();
     run.assumptions = vec![
         "garbage lines include byte sequences that are not valid UTF-8 (a line is whatever ends with a newline)".into(),
         "lines that begin with a known command word but are malformed are not 'unknown input' and are excluded".into(),
